@@ -65,8 +65,111 @@ def gen_desc(rng, max_nodes=8, max_L=6, min_samples=2, max_sites=4, p_gap=0.15):
                                metadata=False, individuals=False, populations=False,
                                alleles=alle, scale=1, p_gap=p_gap)
         if len(samples_of(d)) >= min_samples:
-            return d
+            return reshape_desc(rng, d)
     raise RuntimeError("no description with enough samples")
+
+
+def reshape_desc(rng, d):
+    """Round-5 classes 1 and 5, applied to every family that draws from gen_desc (all later
+    choices - sample sets, focal nodes, windows - are made on the result, so nothing has to be
+    remapped): (5) a last tree that arises purely from edge removals, long edge-less regions
+    before the first and after the last edge; (1) node ids in no relation to time order."""
+    d = dict(d)
+    E = [list(e) for e in d["edges"]]
+    if E and rng.random() < 0.3:
+        rmax = max(e[1] for e in E)
+        at_end = [e for e in E if e[1] == rmax and e[1] - e[0] >= 2]
+        site_there = any(rmax - 1 <= fr(s_[0]) < rmax for s_ in d["sites"])
+        if len(at_end) >= 1 and not site_there and any(e[1] == rmax for e in E if e not in at_end[:1]):
+            for e in rng.sample(at_end, rng.randrange(1, len(at_end) + 1)):
+                if sum(1 for x in E if x[1] == rmax) > 1:       # keep a tree up to rmax
+                    e[1] -= 1
+    if rng.random() < 0.3:
+        a, b = rng.choice([0, 0, 1, 2, 3]), rng.choice([0, 1, 2, 3])
+        E = [[e[0] + a, e[1] + a] + e[2:] for e in E]
+        d["sites"] = [[(fr(s_[0]) + a), s_[1], s_[2]] for s_ in d["sites"]]
+        d["sites"] = [[int(p_) if p_.denominator == 1 else float(p_), x, y] for p_, x, y in d["sites"]]
+        d["L"] = d["L"] + a + b
+    d["edges"] = E
+    d2, _pi = gen_ts.permute_node_ids(rng, d, p=0.5)
+    return d2
+
+
+# forms for methods that hand the ids straight to the C module (mean_descendants, GNN): a
+# 64-bit / unsigned array is refused there with a TypeError (safe-casting rule), which is a
+# clean refusal, so only forms the interface accepts are exercised
+SET_FORMS_LL = ["list", "list", "i32", "view"]     # the outer container must be a list
+
+# ---- round-5 class 2: the same argument in the forms a caller may use ----------------
+SET_FORMS = ["list", "list", "tuple", "i32", "i64", "u32", "view", "mixed"]
+IDX_FORMS = ["list", "tuple", "i32", "i64", "view"]
+WIN_FORMS = ["list", "tuple", "f64", "view"]
+
+
+def conv_sets(sets, form):
+    import numpy as np
+    if sets is None or form == "list":
+        return sets
+    flat = not isinstance(sets[0], (list, tuple))
+
+    def one(A, j=0):
+        if form == "tuple":
+            return tuple(A)
+        if form in ("i32", "i64", "u32") or (form == "mixed" and j % 2 == 0):
+            return np.array(A, dtype={"i32": np.int32, "i64": np.int64, "u32": np.uint32, "mixed": np.int64}[form])
+        if form == "view":
+            buf = np.full(2 * len(A) + 1, -1, dtype=np.int32)
+            buf[::2][:len(A)] = A
+            return buf[::2][:len(A)]
+        return list(A)
+    if flat:
+        return one(sets)
+    out = [one(A, j) for j, A in enumerate(sets)]
+    return tuple(out) if form == "tuple" else out
+
+
+def conv_idx(idx, form):
+    import numpy as np
+    if idx is None or form == "list":
+        return idx
+    single = not isinstance(idx[0], (list, tuple))
+    if form == "tuple":
+        return tuple(idx) if single else tuple(tuple(t) for t in idx)
+    a = np.array(idx, dtype=np.int64 if form == "i64" else np.int32)
+    if form == "view":
+        if single:
+            buf = np.full(2 * len(idx), 0, dtype=np.int32)
+            buf[::2] = idx
+            return buf[::2]
+        buf = np.zeros((a.shape[0], 2 * a.shape[1]), dtype=np.int32)
+        buf[:, ::2] = a
+        return buf[:, ::2]
+    return a
+
+
+def conv_win(w, form):
+    import numpy as np
+    if w is None or isinstance(w, str) or form == "list":
+        return w
+    if form == "tuple":
+        return tuple(w)
+    if form == "view":
+        buf = np.full(2 * len(w), -1.0)
+        buf[::2] = w
+        return buf[::2]
+    return np.array(w, dtype=np.float64)
+
+
+def form_of(case, key, choices):
+    """deterministic choice of an argument form from the case itself (also for corpus cases)"""
+    import hashlib
+    import json
+    h = hashlib.sha256((key + json.dumps(case, sort_keys=True, default=str)).encode()).digest()
+    return choices[h[0] % len(choices)]
+
+
+def random_argform(rng):
+    return {"sets": rng.choice(SET_FORMS), "idx": rng.choice(IDX_FORMS), "win": rng.choice(WIN_FORMS)}
 
 
 def fr(x):
@@ -726,8 +829,9 @@ class GeneralStat(Family):
         def run(windows):
             if case["api"] == "general_stat":
                 Wm = np.array([[float(v) for v in W[s]] for s in samples_of(desc)], dtype=float)
-                return ts.general_stat(Wm, npf, m, windows=windows, **kw)
-            return ts.sample_count_stat(case["sample_sets"], npf, m, windows=windows, **kw)
+                return ts.general_stat(Wm, npf, m, windows=conv_win(windows, form_of(case, "w", WIN_FORMS)), **kw)
+            return ts.sample_count_stat(conv_sets(case["sample_sets"], form_of(case, "s", SET_FORMS)), npf, m,
+                                        windows=conv_win(windows, form_of(case, "w", WIN_FORMS)), **kw)
         try:
             out = encf(run(win_arg(case["windows"])))
             fine = encf(run([float(fr(x)) for x in case["fine"]]))
@@ -995,12 +1099,32 @@ class NamedStat(Family):
         n = 800 if tier == "quick" else 8000
         stats = PRIMARY + DERIVED
         for i in range(n):
+            if i % 40 == 39:
+                # capacity boundary: 31..65 samples, as many singleton sample sets (class 11)
+                desc = big_leaf_desc(rng)
+                smp = samples_of(desc)
+                st = rng.choice(["divergence", "f2", "Y3", "segregating_sites"])
+                kk = K_WAY[st][0] if st in K_WAY else 1
+                case = {"desc": desc, "stat": st, "mode": rng.choice(["site", "branch"]),
+                        "span_normalise": rng.random() < 0.5, "windows": random_windows(rng, desc),
+                        "drop": None, "argform": random_argform(rng), "big": True}
+                if st == "f2":       # needs sets of size >= 2: 32/33-sample halves plus singletons
+                    half = len(smp) // 2
+                    case["sets"] = [smp[:half], smp[half:]] + [[u] for u in smp[:3]]
+                    case["indexes"] = [[0, 1], [1, 0]]
+                else:
+                    case["sets"] = [[u] for u in smp]
+                    if kk > 1:
+                        ns_ = len(smp)
+                        case["indexes"] = [[rng.randrange(ns_) for _ in range(kk)] for _ in range(3)] + [[0] + [ns_ - 1] * (kk - 1)]
+                yield with_refinement(rng, case, desc)
+                continue
             desc = gen_desc(rng, max_nodes=8 if i % 5 else 11, max_L=6 if i % 5 else 9)
             smp = samples_of(desc)
             st = stats[i % len(stats)] if i < 4 * len(stats) else rng.choice(stats)
             case = {"desc": desc, "stat": st, "mode": rng.choice(["site", "branch", "node"]),
                     "span_normalise": rng.random() < 0.6, "windows": random_windows(rng, desc),
-                    "drop": None}
+                    "drop": None, "argform": random_argform(rng)}
             if st in ONE_WAY or st == "Tajimas_D":
                 r = rng.random()
                 if r < 0.15:
@@ -1057,19 +1181,21 @@ class NamedStat(Family):
         import numpy as np
         st, mode, sn = case["stat"], case["mode"], case["span_normalise"]
         drop = case["drop"]
-        kw = dict(windows=windows, mode=mode)
+        af = case.get("argform") or {"sets": "list", "idx": "list", "win": "list"}
+        kw = dict(windows=conv_win(windows, af["win"]), mode=mode)
         if st != "Tajimas_D":
             kw["span_normalise"] = sn
         if st in ONE_WAY or st == "Tajimas_D":
             sets = None if drop == "none" else (case["sets"][0] if drop == "flat" else case["sets"])
-            return getattr(ts, st)(sets, **kw)
+            return getattr(ts, st)(conv_sets(sets, af["sets"]), **kw)
         if st in K_WAY or st in ("Fst", "genetic_relatedness", "genetic_relatedness_proportion"):
             idx = None if drop == "none" else (tuple(case["indexes"][0]) if drop == "flat" else [tuple(t) for t in case["indexes"]])
+            idx = conv_idx(idx, af["idx"])
             if st.startswith("genetic_relatedness"):
-                return ts.genetic_relatedness(case["sets"], indexes=idx, polarised=case["polarised"],
+                return ts.genetic_relatedness(conv_sets(case["sets"], af["sets"]), indexes=idx, polarised=case["polarised"],
                                               centre=case["centre"],
                                               proportion=(st == "genetic_relatedness_proportion"), **kw)
-            return getattr(ts, st)(case["sets"], indexes=idx, **kw)
+            return getattr(ts, st)(conv_sets(case["sets"], af["sets"]), indexes=idx, **kw)
         W = np.array([[float(fr(x)) for x in r] for r in case["W"]], dtype=float)
         if st == "genetic_relatedness_vector":
             return ts.genetic_relatedness_vector(W, centre=case["centre"], **kw)
@@ -1097,6 +1223,8 @@ class NamedStat(Family):
         """first output column of the sample-count statistics against the Coq specification
         (and, in branch mode, the Gallina port of the C sweep)"""
         st = case["stat"]
+        if case.get("big"):
+            return None          # 65-column weight tables: oracle only (term size)
         if st == "genetic_relatedness_vector" and "err" not in obs and not case["centre"]:
             # model of the code: the span_normalise flag is ignored (finding C08-F5)
             desc = case["desc"]
@@ -1248,6 +1376,7 @@ class NamedStat(Family):
     def describe(self, case, obs):
         w = case["windows"]
         return {"stat": case["stat"], "mode": case["mode"], "drop": case["drop"],
+                "argform": "/".join(sorted(set((case.get("argform") or {}).values()))),
                 "windows": w if isinstance(w, str) else "list%d" % (len(w) - 1)}
 
     shrink = GeneralStat.shrink
@@ -1427,7 +1556,8 @@ class AFS(Family):
         ts = build_ts(case["desc"])
 
         def run(w):
-            return ts.allele_frequency_spectrum(None if case["none"] else case["sets"], windows=w,
+            return ts.allele_frequency_spectrum(None if case["none"] else conv_sets(case["sets"], form_of(case, "s", SET_FORMS)),
+                                                windows=conv_win(w, form_of(case, "w", WIN_FORMS)),
                                                 mode=case["mode"], polarised=case["polarised"],
                                                 span_normalise=case["span_normalise"])
         try:
@@ -1586,7 +1716,10 @@ class Matrix(Family):
     def generate(self, rng, tier):
         n = 240 if tier == "quick" else 2500
         for i in range(n):
-            desc = gen_desc(rng, max_nodes=9 if i % 3 else 12, max_L=6 if i % 3 else 10, max_sites=5)
+            if i % 30 == 29:
+                desc = big_leaf_desc(rng)          # 31..65 singleton sets, num_threads 8 > windows
+            else:
+                desc = gen_desc(rng, max_nodes=9 if i % 3 else 12, max_L=6 if i % 3 else 10, max_sites=5)
             smp = samples_of(desc)
             r = rng.random()
             if r < 0.25:
@@ -1611,7 +1744,8 @@ class Matrix(Family):
     def observe(self, case):
         ts = build_ts(case["desc"])
         arg = None if case["how"] == "none" else ([A[0] for A in case["sets"]] if case["how"] == "flat" else case["sets"])
-        w = win_arg(case["windows"])
+        w = conv_win(win_arg(case["windows"]), form_of(case, "w", WIN_FORMS))
+        sform = form_of(case, "s", SET_FORMS)
         kw = dict(windows=w, mode=case["mode"], span_normalise=case["span_normalise"])
         out = {}
         for meth in ("divergence_matrix", "genetic_relatedness_matrix"):
@@ -1619,6 +1753,7 @@ class Matrix(Family):
             # (_parse_stat_matrix_sample_sets); genetic_relatedness_matrix wants lists of lists
             a = case["sets"] if (meth == "genetic_relatedness_matrix" and case["how"] == "flat") else arg
             try:
+                a = conv_sets(a, sform)
                 out[meth] = encf(getattr(ts, meth)(a, num_threads=0, **kw))
                 th = {}
                 for t in self.THREADS:
@@ -1857,17 +1992,20 @@ class Dedicated(Family):
         ts = build_ts(case["desc"])
         try:
             if case["what"] == "mean_descendants":
-                return {"out": encf(ts.mean_descendants(case["sets"]))}
+                return {"out": encf(ts.mean_descendants(conv_sets(case["sets"], form_of(case, "s", SET_FORMS_LL))))}
             if case["what"] == "gnn":
-                out = {"out": encf(ts.genealogical_nearest_neighbours(case["focal"], case["sets"]))}
-                out["threads"] = {str(t): [encf(ts.genealogical_nearest_neighbours(case["focal"], case["sets"], num_threads=t))
+                focal = conv_sets(case["focal"], form_of(case, "f", ["list", "tuple", "i32", "view"]))
+                rsets = conv_sets(case["sets"], form_of(case, "s", SET_FORMS_LL))
+                out = {"out": encf(ts.genealogical_nearest_neighbours(focal, rsets))}
+                out["threads"] = {str(t): [encf(ts.genealogical_nearest_neighbours(focal, rsets, num_threads=t))
                                            for _ in range(case["reps"])] for t in (1, 2, 3, 8)}
                 return out
             w = win_arg(case["windows"])
             if isinstance(w, str):
                 w = [float(fr(x)) for x in case["wins"]]
-            kw = dict(sample_sets=case["sets"], indexes=None if case["indexes"] is None else [tuple(t) for t in case["indexes"]],
-                      windows=w, pair_normalise=case["pair_normalise"])
+            kw = dict(sample_sets=conv_sets(case["sets"], form_of(case, "s", SET_FORMS)),
+                      indexes=None if case["indexes"] is None else conv_idx([tuple(t) for t in case["indexes"]], form_of(case, "i", ["list", "tuple", "i32", "view"])),
+                      windows=conv_win(w, form_of(case, "w", WIN_FORMS)), pair_normalise=case["pair_normalise"])
             if case.get("time_windows"):
                 kw["time_windows"] = [float("inf") if x is None else float(fr(x)) for x in case["time_windows"]]
             return {"out": encf(ts.pair_coalescence_counts(span_normalise=case["span_normalise"], **kw)),
@@ -2127,6 +2265,56 @@ def clades(F_, x, drop_empty=True):
     return out, roots
 
 
+CAPACITY_SIZES = [31, 32, 33, 63, 64, 65]      # around the 32/64-bit blocks of sample bitsets
+
+
+def big_leaf_desc(rng, with_sites=True):
+    """round-5 class 11: a leaf tree sequence with 31..65 samples (two-locus statistics keep
+    per-allele sample bitsets; k-way statistics get that many sample sets)"""
+    n = rng.choice(CAPACITY_SIZES)
+    d = random_leaf_trees(rng, n, rng.randrange(1, 4))
+    if with_sites:
+        L = d["L"]
+        cand = [2 * x for x in range(L)] + [2 * x + 1 for x in range(L)]
+        pos2 = sorted(rng.sample(cand, min(len(cand), rng.randrange(2, 5))))
+        d["sites"] = [[p2 / 2 if p2 % 2 else p2 // 2, "0", ""] for p2 in pos2]
+        d = single_mutation_sites(rng, d)
+        # mutations on nodes that exist at the site (any node is legal; prefer informative ones)
+    return d
+
+
+def permute_pair(rng, d1, d2):
+    """round-5 class 1 for tree pairs: renumber so that the shared samples (the leaves
+    0..n-1 of both descriptions) are no longer the first ids and not in time order, with the
+    SAME new ids in both trees: one internal node of each tree gets id 0, the leaves follow
+    in a common random order, the remaining internal nodes come last in random order."""
+    n = sum(1 for nd in d1["nodes"] if nd[0] & 1)
+    sigma = list(range(n))
+    rng.shuffle(sigma)
+
+    def one(d):
+        M = len(d["nodes"])
+        internals = list(range(n, M))
+        rng.shuffle(internals)
+        pi = [None] * M
+        for i in range(n):
+            pi[i] = 1 + sigma[i]
+        pi[internals[0]] = 0
+        for j, u in enumerate(internals[1:]):
+            pi[u] = n + 1 + j
+        nodes = [None] * M
+        for u in range(M):
+            nodes[pi[u]] = d["nodes"][u]
+        dd = dict(d)
+        dd["nodes"] = nodes
+        dd["edges"] = [[l, r, pi[p_], pi[c], m_] for l, r, p_, c, m_ in d["edges"]]
+        dd["mutations"] = [[s_, pi[u], ds, par, t, m_] for s_, u, ds, par, t, m_ in d["mutations"]]
+        return dd
+    if min(len(d1["nodes"]), len(d2["nodes"])) <= n or rng.random() < 0.4:
+        return d1, d2
+    return one(d1), one(d2)
+
+
 def decorate_unary(rng, desc):
     """A single-rooted leaf tree (random_leaf_trees, L = 1) decorated with the legal shapes
     that repeat a clade: unary chains above internal nodes, above leaves and above the root,
@@ -2182,20 +2370,25 @@ class LdAndDistance(Family):
         for i in range(n):
             what = ["ld", "kc", "rf"][i % 3]
             if what == "ld":
-                desc = single_mutation_sites(rng, gen_desc(rng, max_nodes=9, max_L=6, max_sites=5))
+                if i % 15 == 0:
+                    desc = big_leaf_desc(rng)
+                else:
+                    desc = single_mutation_sites(rng, gen_desc(rng, max_nodes=9, max_L=6, max_sites=5))
                 ns = len(desc["sites"])
                 yield {"what": "ld", "desc": desc,
                        "a": rng.randrange(ns) if ns else 0, "direction": rng.choice([1, -1]),
                        "max_sites": rng.choice([None, 1, 2]), "max_distance": rng.choice([None, [1, 1], [3, 2], [5, 2]])}
             elif what == "kc":
                 nl, L = rng.randrange(2, 6), rng.randrange(1, 6)
-                yield {"what": "kc", "desc": random_leaf_trees(rng, nl, L), "desc2": random_leaf_trees(rng, nl, L),
+                da, db = permute_pair(rng, random_leaf_trees(rng, nl, L), random_leaf_trees(rng, nl, L))
+                yield {"what": "kc", "desc": da, "desc2": db,
                        "lam": rng.choice([[0, 1], [1, 1], [1, 2], [1, 4]])}
             else:
                 r_ = rng.random()
                 if r_ < 0.25:
                     nl = rng.randrange(2, 6)
-                    yield {"what": "rf", "desc": random_leaf_trees(rng, nl, 1), "desc2": random_leaf_trees(rng, nl, 1)}
+                    da, db = permute_pair(rng, random_leaf_trees(rng, nl, 1), random_leaf_trees(rng, nl, 1))
+                    yield {"what": "rf", "desc": da, "desc2": db}
                 elif r_ < 0.7:
                     # single-rooted pairs with unary nodes / dangling sample-free siblings:
                     # per-node clades repeat, the distance must count distinct bipartitions
@@ -2205,6 +2398,7 @@ class LdAndDistance(Family):
                         b_ = a_                      # same topology, only the decoration differs
                     da = decorate_unary(rng, a_)
                     db = decorate_unary(rng, b_) if rng.random() < 0.6 else b_
+                    da, db = permute_pair(rng, da, db)
                     yield {"what": "rf", "desc": da, "desc2": db}
                 else:
                     d1 = gen_desc(rng, max_nodes=8, max_L=1, max_sites=0)
